@@ -485,7 +485,12 @@ def check_full(r, pre, fails, case, tag):
             key = "param-total-times-three"
             if onlyc:
                 ca = core.childrenByLocator[core.spatialGrid[0, 0, 0]]
-                if par_of(ca)[pi] == pre["par"][(0, 0)][pi] and gotp[pi] - 3 * third == -2 * pre["par"][(0, 0)][pi]:
+                # the listed finding is narrow: the unchanged code leaves the centre unscaled only when the centre is the
+                # FIRST assembly the loop visits (no cell with j < 0: nothing is copied, hence nothing re-flagged,
+                # before it) after a flag-clearing addEdgeAssemblies; any other unscaled centre is a plain violation
+                centre_first = not any(c[1] < 0 for c in pre["cells"])
+                if centre_first and par_of(ca)[pi] == pre["par"][(0, 0)][pi] and \
+                        gotp[pi] - 3 * third == -2 * pre["par"][(0, 0)][pi]:
                     key = "centre-params-not-scaled"
             fails.append(Failure(key, "every volume-integrated total is three times the third-core value "
                                  "(the centre assembly counting once)", case, observed=str(gotp[pi]),
@@ -575,7 +580,7 @@ def in_model_domain(spec, ops):
 
 def run(ctx):
     rng = ctx.rng
-    ncases = ctx.pick(17, 150)
+    ncases = ctx.pick(19, 150)
     plan = []
     # fixed corpus first: the design-round probes and the excluded points
     plan.append(({"rings": 9, "holes": [], "edges0": False, "vseed": 1}, ["convert", "restore"]))
@@ -588,6 +593,12 @@ def run(ctx):
     plan.append(({"rings": 9, "holes": [], "edges0": False, "vseed": 2}, ["addEdge", "convert", "restore"]))      # F10
     plan.append(({"rings": 6, "holes": [[2, -1]], "edges0": False, "vseed": 3},
                  ["addEdge", "removeEdge", "convert", "addEdge", "restore", "addEdge", "removeEdge"]))
+    # nothing on the 0-degree line, but cells with j < 0 exist (the centre is not the first assembly convert visits):
+    # addEdge adds nothing and clears the flags, convert must still scale the centre (copies re-flag before it)
+    plan.append(({"rings": 5, "holes": [[2, -1], [4, -2]], "edges0": False, "vseed": 13},
+                 ["addEdge", "convert", "restore"]))
+    plan.append(({"rings": 7, "holes": [[2, -1], [4, -2], [6, -3], [1, 1]], "edges0": False, "vseed": 14, "track": True},
+                 ["addEdge", "convert", "restore", "addEdge", "convert"]))
     plan.append((gen_spec(rng, "nocentre"), ["convert", "restore"]))
     plan.append((gen_spec(rng, "centreonly"), ["convert", "restore"]))
     plan.append((gen_spec(rng, "jnonneg"), ["addEdge", "convert", "restore"]))
